@@ -722,15 +722,13 @@ pub fn build_env(ctx: &Ctx) -> Result<Env, String> {
 /// canonical spelling x all methods x all token variants over every in-scope route (finite)
 pub fn matrix(env: &Env) -> Vec<Case> {
     let mut out = vec![];
-    let n = env.scope_routes.len();
     let mut variants: Vec<(Carrier, TokVal)> = vec![(Carrier::None, TokVal::Empty)];
     for c in CARRIERS {
         for v in [TokVal::Empty, TokVal::Garbage { i: 5 << 12 }, TokVal::NeverIssued { kind: 0, seed: 7 }, TokVal::NeverIssued { kind: 1, seed: 7 }, TokVal::Expired, TokVal::Valid] {
             variants.push((*c, v));
         }
     }
-    for (ri, p) in env.scope_routes.iter().enumerate() {
-        let _ = ri;
+    for p in env.scope_routes.iter() {
         for m in 0..METHODS.len() {
             for (vi, (c, v)) in variants.iter().enumerate() {
                 out.push(Case::Http(HttpCase {
@@ -747,7 +745,6 @@ pub fn matrix(env: &Env) -> Vec<Case> {
             }
         }
     }
-    let _ = n;
     out
 }
 
@@ -884,9 +881,8 @@ fn main_inner(ctx: &Ctx) -> i32 {
     if failure.is_none() {
         let env2 = env.clone();
         let t0 = Instant::now();
-        let stats2 = stats.clone();
-        let _guard = Defer(Box::new(move || stats2.set_extra("wall_random_s", serde_json::json!(t0.elapsed().as_secs_f64()))));
         failure = run_cases(ctx, &stats, http_case_strategy, ctx.tier.pick(25_000, 500_000), threads, 400, move |c: &Case| run_case(&env2, c));
+        stats.set_extra("wall_random_s", serde_json::json!(t0.elapsed().as_secs_f64()));
     }
     stats.excluded_known.store(env.excluded_known.load(Ordering::Relaxed), Ordering::Relaxed);
     let mut f = fin(Some(&env));
@@ -921,14 +917,6 @@ impl<'a> StrictView<'a> {
             }
             Case::Grpc(_) => false,
         }
-    }
-}
-
-struct Defer(Box<dyn FnOnce() + Send>);
-impl Drop for Defer {
-    fn drop(&mut self) {
-        let f = std::mem::replace(&mut self.0, Box::new(|| {}));
-        f();
     }
 }
 
